@@ -94,4 +94,69 @@ def wsum (p : UInt8 → Bool) : List (UInt8 × Rat) → Rat
   | [] => 0
   | cw :: cs => (if p cw.1 then cw.2 else 0) + wsum p cs
 
+/-! ## esl_msa_Set{Name,Desc,Accession,Author,SeqName,SeqAccession,SeqDescription} and the esl_msa_Format* family -/
+
+inductive StrField where
+  | name | desc | acc | au | sqname | sqacc | sqdesc
+  deriving Repr, DecidableEq, Inhabited
+
+/-- `n >= 0 ? esl_memstrdup(s, n, &dst) : esl_strdup(s, -1, &dst)`: `NULL` stays `NULL`; the first `n` bytes, or the whole
+    string (the protocol's strings are NUL free; `n <= strlen(s)` is the caller's contract for a NUL-terminated `s`) -/
+def dupMem (s : Option Bytes) (n : Int) : Option Bytes :=
+  s.map fun b => if 0 ≤ n then b.take n.toNat else b
+
+/-- `esl_msa_Set…(msa, [idx,] s, n)`. `sqalloc = nseq` for every alignment the library hands out (Create, SequenceSubset,
+    Copy/Clone of those). Per-sequence setters: `idx >= sqalloc` is `eslEINCONCEIVABLE` (exception), a NULL name too;
+    a negative `idx` indexes before the arrays: `.fault`. An optional per-sequence array whose last entry was erased is
+    freed: not observable (all entries `none`). -/
+def setStr (m : Msa) (f : StrField) (idx : Int) (s : Option Bytes) (n : Int) : Res :=
+  match f with
+  | .name => { msa := { m with name := dupMem s n }, st := .ok }
+  | .desc => { msa := { m with desc := dupMem s n }, st := .ok }
+  | .acc => { msa := { m with acc := dupMem s n }, st := .ok }
+  | .au => { msa := { m with au := dupMem s n }, st := .ok }
+  | .sqname =>
+    if idx ≥ m.nseq then { msa := m, st := .einconceivable, exc := true }
+    else match s with
+      | none => { msa := m, st := .einconceivable, exc := true }
+      | some b =>
+        if idx < 0 then { msa := m, st := .fault }
+        else { msa := { m with sqname := m.sqname.set idx.toNat (if 0 ≤ n then b.take n.toNat else b) }, st := .ok }
+  | .sqacc =>
+    if idx ≥ m.nseq then { msa := m, st := .einconceivable, exc := true }
+    else if idx < 0 then { msa := m, st := .fault }
+    else { msa := { m with sqacc := m.sqacc.set idx.toNat (dupMem s n) }, st := .ok }
+  | .sqdesc =>
+    if idx ≥ m.nseq then { msa := m, st := .einconceivable, exc := true }
+    else if idx < 0 then { msa := m, st := .fault }
+    else { msa := { m with sqdesc := m.sqdesc.set idx.toNat (dupMem s n) }, st := .ok }
+
+/-- `esl_msa_Format…(msa, [idx,] fmt, …)` where `out` is what `esl_vsprintf` produces for the format and its arguments
+    (`none` = a NULL format): the alignment-level fields and the optional per-sequence fields are erased by NULL, a NULL
+    sequence name and `idx >= sqalloc` are `eslEINVAL` (exception) — NOT the `eslEINCONCEIVABLE` of the `Set` family. -/
+def formatStr (m : Msa) (f : StrField) (idx : Int) (out : Option Bytes) : Res :=
+  match f with
+  | .name => { msa := { m with name := out }, st := .ok }
+  | .desc => { msa := { m with desc := out }, st := .ok }
+  | .acc => { msa := { m with acc := out }, st := .ok }
+  | .au => { msa := { m with au := out }, st := .ok }
+  | .sqname =>
+    if idx ≥ m.nseq then { msa := m, st := .einval, exc := true }
+    else match out with
+      | none => { msa := m, st := .einval, exc := true }
+      | some b =>
+        if idx < 0 then { msa := m, st := .fault }
+        else { msa := { m with sqname := m.sqname.set idx.toNat b }, st := .ok }
+  | .sqacc =>
+    if idx ≥ m.nseq then { msa := m, st := .einval, exc := true }
+    else if idx < 0 then { msa := m, st := .fault }
+    else { msa := { m with sqacc := m.sqacc.set idx.toNat out }, st := .ok }
+  | .sqdesc =>
+    if idx ≥ m.nseq then { msa := m, st := .einval, exc := true }
+    else if idx < 0 then { msa := m, st := .fault }
+    else { msa := { m with sqdesc := m.sqdesc.set idx.toNat out }, st := .ok }
+
+/-- what `esl_vsprintf` makes of the harness's format `"%s|%d"` -/
+def fmtSD (v : Bytes) (k : Int) : Bytes := v ++ [0x7c] ++ (toString k).toUTF8.toList
+
 end EaselModel.Msa
